@@ -270,6 +270,10 @@ def unescape_string(val):
               .replace('%3B', ';').replace('%5C', '\\')
 
 
+# the backslash sequences that Contentline.parts() decodes in a property value
+_UNESCAPE_VALUE = re.compile(r'\\([\\,;:])')
+
+
 def unescape_list_or_string(val):
     if isinstance(val, list):
         return [unescape_string(s) for s in val]
@@ -317,11 +321,19 @@ class Contentline(str):
         """Split the content line up into (name, parameters, values) parts.
         """
         try:
-            st = escape_string(self)
             name_split = None
             value_split = None
             in_quotes = False
-            for i, ch in enumerate(st):
+            escaped = False
+            i = -1
+            for i, ch in enumerate(self):
+                if escaped:
+                    # the character after a backslash is never a delimiter
+                    escaped = False
+                    continue
+                if ch == '\\' and self[i + 1:i + 2] in ('\\', ',', ';', ':'):
+                    escaped = True
+                    continue
                 if not in_quotes:
                     if ch in ':;' and not name_split:
                         name_split = i
@@ -329,7 +341,7 @@ class Contentline(str):
                         value_split = i
                 if ch == '"':
                     in_quotes = not in_quotes
-            name = unescape_string(st[:name_split])
+            name = unescape_string(escape_string(self[:name_split]))
             if not name:
                 raise ValueError('Key name is required')
             validate_token(name)
@@ -337,13 +349,14 @@ class Contentline(str):
                 value_split = i + 1
             if not name_split or name_split + 1 == value_split:
                 raise ValueError('Invalid content line')
-            params = Parameters.from_ical(st[name_split + 1: value_split],
-                                          strict=self.strict)
+            params = Parameters.from_ical(
+                escape_string(self[name_split + 1: value_split]),
+                strict=self.strict)
             params = Parameters(
                 (unescape_string(key), unescape_list_or_string(value))
                 for key, value in iter(params.items())
             )
-            values = unescape_string(st[value_split + 1:])
+            values = _UNESCAPE_VALUE.sub(r'\1', self[value_split + 1:])
             return (name, params, values)
         except ValueError as exc:
             raise ValueError(
